@@ -35,6 +35,7 @@ func genDHCP(prop string, seed uint64, tier string) Scenario {
 	c.Debug = r.chance(1, 5)
 	c.PreemptN = r.pick(0, 1, 4, 16)
 	c.HintMax = r.pick(0, 0, 50)
+	c.ReuseBuf = r.chance(1, 2)
 	nclients := 2 + r.n(nDHCPClients-1)
 	nops := 4 + r.n(30)
 	if r.chance(1, 3) {
@@ -157,6 +158,7 @@ type dhcpRun struct {
 	*exec
 	onAck         func(d *dhcpRun, ri *reqInfo, y netip.Addr)
 	rediscovered  map[string]bool // client ids that sent a DISCOVER after their last ACK
+	capturedOp    map[fb.MAC]bool // capture state as set through Capture/Release by this history
 	failArmed     bool
 	saveFailed    bool
 	anySaveFailed bool
@@ -287,7 +289,7 @@ func (d *dhcpRun) lastSaveFailed() bool { return d.saveFailed }
 func runDHCPCore(e *exec, onAck func(d *dhcpRun, ri *reqInfo, y netip.Addr)) *dhcpRun {
 	w := e.w
 	u := w.U
-	d := &dhcpRun{exec: e, onAck: onAck, rediscovered: map[string]bool{}, hold: map[netip.Addr]holding{}, lastAck: map[string]ackRec{}, offers: map[string]offerRec{}}
+	d := &dhcpRun{exec: e, onAck: onAck, rediscovered: map[string]bool{}, capturedOp: map[fb.MAC]bool{}, hold: map[netip.Addr]holding{}, lastAck: map[string]ackRec{}, offers: map[string]offerRec{}}
 	for i := 0; i < nDHCPClients; i++ {
 		d.cl = append(d.cl, &dhClient{idx: i, mac: u.MACs[world.MC1+i], xid: uint32(0x1000 * (i + 1))})
 	}
@@ -416,6 +418,7 @@ func runDHCPCore(e *exec, onAck func(d *dhcpRun, ri *reqInfo, y netip.Addr)) *dh
 		case "capture":
 			c := d.cl[o.M%len(d.cl)]
 			w.S.Capture(world.HW(c.mac))
+			d.capturedOp[c.mac] = true
 			for v := 0; v < 2; v++ {
 				d.endHolding(cidKey(v, c.mac), "capture state changed")
 			}
@@ -423,6 +426,7 @@ func runDHCPCore(e *exec, onAck func(d *dhcpRun, ri *reqInfo, y netip.Addr)) *dh
 		case "release":
 			c := d.cl[o.M%len(d.cl)]
 			w.S.Release(world.HW(c.mac))
+			d.capturedOp[c.mac] = false
 			for v := 0; v < 2; v++ {
 				d.endHolding(cidKey(v, c.mac), "capture state changed")
 			}
@@ -470,8 +474,28 @@ func (d *dhcpRun) checkReplies(ri *reqInfo, o Op) {
 	nReplies := 0
 	for _, out := range outs {
 		f := out.F
+		if f.DHCP != nil && f.DHCP.Op == 1 && (f.DHCP.MsgType == 4 || f.DHCP.MsgType == 7) {
+			// a DECLINE/RELEASE forged towards the real router on behalf of the client whose
+			// message was just processed: it must carry that client's hardware address and xid
+			d.probe("forced_decline_or_release")
+			if ri != nil {
+				if f.DHCP.CHAddr != refdec.MAC(ri.mac) {
+					d.violateSoft("C07.intent", "forced-decline:chaddr", fmt.Sprintf("forged %s carries chaddr %s, the client it speaks for is %x: %s", map[byte]string{4: "DECLINE", 7: "RELEASE"}[f.DHCP.MsgType], f.DHCP.CHAddr, ri.mac, f.Describe()))
+				}
+				if f.DHCP.MsgType == 4 && f.DHCP.XID != ri.xid {
+					d.violateSoft("C07.intent", "forced-decline:xid", fmt.Sprintf("forged DECLINE carries xid %x, the request it reacts to had %x", f.DHCP.XID, ri.xid))
+				}
+				if cid, ok := f.DHCP.Opt(61); ok && f.DHCP.MsgType == 4 {
+					want := []byte(ri.cid)
+					if !bytes.Equal(cid, want) {
+						d.violateSoft("C07.intent", "forced-decline:client-id", fmt.Sprintf("forged DECLINE carries client id %x, the client it speaks for is %x", cid, want))
+					}
+				}
+			}
+			continue
+		}
 		if f.DHCP == nil || f.DHCP.Op != 2 {
-			continue // attack bursts and forced declines are client-side messages to the router
+			continue // attack bursts are client-side messages to the router
 		}
 		nReplies++
 		dh := f.DHCP
@@ -587,7 +611,18 @@ func (d *dhcpRun) checkReply(ri *reqInfo, dh *refdec.DHCP, f *refdec.Frame, u *w
 	}
 	// ---- C11: uniqueness ----
 	if h, ok := d.hold[y]; ok && h.cid != ri.cid && now < h.until {
-		d.violate("C11.unique", kind+":held-by-other-client", fmt.Sprintf("%s of %s to client %x while it is acknowledged to client %x until %v (now %v)", kind, y, ri.cid, h.cid, h.until, now))
+		key := kind + ":held-by-other-client"
+		// did the holder silently lose its capture state (the session purged its MAC entry)?
+		var hm fb.MAC
+		if len(h.cid) == 7 {
+			copy(hm[:], h.cid[1:])
+		} else {
+			copy(hm[:], h.cid)
+		}
+		if d.capturedOp[hm] && !d.w.S.IsCaptured(world.HW(hm)) {
+			key += ":holder-capture-state-lost-with-its-purged-mac-entry"
+		}
+		d.violateSoft("C11.unique", key, fmt.Sprintf("%s of %s to client %x while it is acknowledged to client %x until %v (now %v)", kind, y, ri.cid, h.cid, h.until, now))
 	}
 	// ---- C12: options ----
 	if gwOpt, ok := dh.OptIP(3); !ok || gwOpt != gw {
